@@ -7,7 +7,9 @@ NEEDS_WS = True
 DECIDED = ("R7.1 must-pass-through: on every normal path of the installation entry point that takes a (fake, verifier) pair, when the verifier "
            "carries a counter, that counter is reset (store(0) / swap(0) on the verifier's own counter field) before the first installation "
            "effect — or, alternatively, every `times` arm resets its static before building the verifier; R7.2 the counter has no other "
-           "writer: in every generated fake the only access is the one RMW (C06 R6.1), in the library the only write is the reset")
+           "writer: in every generated fake the only access is the one RMW (C06 R6.1), in the library the only write is the reset; R7.3 the installation's exclusive window on the shared static extends to its verdict: in the "
+           "injector, the field holding the verifiers (the type whose destructor reads the counter) is dropped before the field holding the "
+           "MutexGuard (declaration order, or emptied by the explicit destructor)")
 NOT_DECIDED = ("two simultaneously live installations built from the same expansion site share one static (inherent to the macro design; "
                "not claimed)")
 
@@ -56,6 +58,7 @@ def run(ck, models, tier, ws):
             if f_ not in allowed and cs and cs <= allowed:
                 allowed.add(f_)
                 changed = True
+    verdict_under_lock(ck, tm, "R7.3")
     bad = [w for w in writers if w[0] not in allowed]
     ck.ob("R7.2", "no-other-writer-in-library", tm.target, not bad, "atomic writes in the library: %s" % [(short(a), short(b)) for a, b in writers])
 
@@ -110,3 +113,46 @@ def install_resets_counter(ck, tm, rule, in_expansion=False):
                       "installations built by the same line of source: with `times: 1`, the second lifetime that runs the same set-up code "
                       "panics 'called more times than expected' on its first call"), where(eff[0]) if eff else None)
     return n_paths
+
+
+def verdict_under_lock(ck, tm, rule):
+    """The counter behind a `times` fake is one static per expansion site; an installation owns it from the reset (made under
+    the injector lock: the install methods hold `&mut` injector, C04 R4.4) until its verdict has read it. The verdict is the
+    destructor of the verifier stored in the injector, so in the injector's teardown the field holding the verifiers must be
+    gone before the field holding the MutexGuard: Rust drops fields in declaration order after Drop::drop, so either the
+    verifier field is declared before the lock field or the explicit destructor empties it."""
+    from . import roles, scans
+    facts = tm.facts
+    vtypes = []
+    for adt, dfn in tm.drop_impls():
+        b = facts.body(dfn)
+        if b and any("atomic::Atomic" in name and name.split("::")[-1] == "load" for name, foreign, local, t in facts.callees_of(b)):
+            vtypes.append(adt)
+    ck.floor(rule, "types-whose-destructor-reads-a-counter", len(vtypes), 1, tm.target)
+    n = 0
+    for p, lockname, lidx, a, opt in roles.lock_holders(facts):
+        fields = a["variants"][0]["fields"]
+        for i, f in enumerate(fields):
+            holds = [t for t, path in roles.components(facts, f["ty"], through_refs=False) if t.get("k") == "adt" and t.get("path") in vtypes]
+            if not holds or i == lidx:
+                continue
+            n += 1
+            ok = i < lidx
+            how = "declared before"
+            if not ok:
+                # explicit destructor of the holder that empties the field
+                dfn = [d for adt_, d in tm.drop_impls() if adt_ == p]
+                emptied = []
+                if dfn:
+                    every = [b_["path"] for b_ in facts.fn_bodies() if b_["path"] != dfn[0]]
+                    emptied = [m for m in scans.container_mutations(facts, p, i, exclude_fns=every, allowed_suffixes=())
+                               if m[1].split("::")[-1] in ("clear", "drain", "take") or m[1].endswith("truncate")]
+                ok = bool(emptied)
+                how = "emptied by the explicit destructor (%s) before" % ", ".join(short(m[1]) for m in emptied) if ok else "declared AFTER"
+            ck.ob(rule, "%s/verdict-before-unlock/%s" % (short(p), f["name"]), tm.target, ok,
+                  "fields of %s in declaration (= drop) order: %s; `%s` (#%d, holds %s whose destructor reads the call counter) is %s the lock "
+                  "field `%s` (#%d)%s" % (short(p), [x["name"] for x in fields], f["name"], i, short(holds[0]["path"]), how, lockname, lidx,
+                                         "" if ok else ": the lock is released first, and a thread waiting in the constructor can install the same "
+                                         "expansion (resetting and incrementing the shared static) before this installation's verdict reads it"),
+                  "%s:%d" % (a["span"]["file"], a["span"]["line"]) if a.get("span") else None)
+    ck.floor(rule, "lock-holder-fields-with-a-verifier", n, 1, tm.target)
